@@ -65,6 +65,7 @@ a("//@   property C09 C01")
 a("//@   opt nil-receiver")
 a("//@   opt group-hyps")
 a("//@   opt path-hyps")
+a("//@   opt functional-hints")
 a("//@   lock t.mu : W")
 gh = [("repr", "map[*node]set[*node]"), ("S", "map[*node]set[K]"), ("term", "map[*node]K"), ("wit", "map[*node]K"), ("dep", "map[*node]int")]
 for g, ty in gh + [("vm", "map[K]V")]:
